@@ -84,7 +84,8 @@ where
                 return Err(PolynomialError::InvalidFraction { frac: coeff });
             }
             match (fraction[0].parse::<f64>(), fraction[1].parse::<f64>()) {
-                (Ok(x), Ok(y)) if y != 0.0 => x / y,
+                // a numeral or quotient beyond the range of f64 would silently become infinity
+                (Ok(x), Ok(y)) if y != 0.0 && y.is_finite() && (x / y).is_finite() => x / y,
                 _ => {
                     return Err(PolynomialError::InvalidFraction { frac: coeff });
                 }
@@ -92,8 +93,8 @@ where
         } else {
             let parsed = coeff.parse::<f64>();
             match parsed {
-                Ok(x) => x,
-                Err(_) => return Err(PolynomialError::InvalidCoefficient { coeff }),
+                Ok(x) if x.is_finite() => x,
+                _ => return Err(PolynomialError::InvalidCoefficient { coeff }),
             }
         };
 
@@ -124,14 +125,17 @@ where
                             });
                         }
                         match (fraction[0].parse::<f64>(), fraction[1].parse::<f64>()) {
-                            (Ok(x), Ok(y)) if y != 0.0 => power = x / y,
+                            (Ok(x), Ok(y)) if y != 0.0 && y.is_finite() && (x / y).is_finite() => {
+                                power = x / y
+                            }
                             _ => {
                                 return Err(PolynomialError::InvalidFractionalExponent {
                                     pow: pow_str,
                                 });
                             }
                         }
-                    } else if let Ok(pow) = pow_str.parse::<f64>() {
+                    } else if let Some(pow) = pow_str.parse::<f64>().ok().filter(|p| p.is_finite())
+                    {
                         power = pow
                     } else {
                         return Err(PolynomialError::InvalidExponent { pow: pow_str });
@@ -152,6 +156,12 @@ where
                 Some(last) if last.0 == *var => last.1 += *power,
                 _ => merged.push((var.clone(), *power)),
             }
+        }
+        if let Some((_, power)) = merged.iter().find(|(_, power)| !power.is_finite()) {
+            // exponents of a repeated variable that add up beyond the range of f64
+            return Err(PolynomialError::InvalidExponent {
+                pow: power.to_string(),
+            });
         }
         parsed.push(Term {
             coefficient: coeff,
